@@ -52,7 +52,8 @@ def instances(tier, seed):
             nets.append({'fam': 'T1', 'K': K, 'd0': 1, 's': 1, 'C': 2})
         nets += [{'fam': 'T1', 'K': 4, 'd0': 2, 's': 1, 'C': 2}, {'fam': 'T1', 'K': 3, 'd0': 1, 's': 2, 'C': 2},
                  {'fam': 'A1', 'K': 2, 'C': 2}, {'fam': 'T2', 'K0': 3, 'K1': 2}, {'fam': 'K1', 'origins': ['s', 's']},
-                 {'fam': 'D2', 'C': 2}, {'fam': 'L1'}, {'fam': 'R2'}]
+                 {'fam': 'D2', 'C': 2}, {'fam': 'L1'}, {'fam': 'R2'},
+                 {'fam': 'T1', 'K': 2, 'tail': 'relu'}, {'fam': 'T1', 'K': 2, 'tail': 'add'}]
     else:
         for K in range(1, 13):
             for d0 in (1, 2, 3):
@@ -61,6 +62,7 @@ def instances(tier, seed):
                         continue
                     nets.append({'fam': 'T1', 'K': K, 'd0': d0, 's': s, 'C': 2})
         nets += [{'fam': 'T1', 'K': 5, 'd0': 1, 's': 1, 'C': 3, 'bias': False}]
+        nets += [{'fam': 'T1', 'K': 3, 'tail': t} for t in ('relu', 'add', 'lsm')]
         nets += [{'fam': 'A1', 'K': 2, 'C': 2}, {'fam': 'A1', 'K': 3, 'C': 3}, {'fam': 'A1', 'K': 2, 'C': 2, 'dw': True}]
         for fold in (False, True):
             nets += [{'fam': 'T2', 'K0': 3, 'K1': 2, 'pit': {'fold_bn': fold}}, {'fam': 'T2', 'K0': 4, 'K1': 3, 'lin_bn': False, 'pit': {'fold_bn': fold}},
